@@ -74,10 +74,12 @@ type World struct {
 	switchTo         string   // store kind the next restart opens ("memdir")
 	switched         bool
 	lastLoc          string   // Location of the latest 202 for an upload: the session adversarial requests are aimed at
+	residueOK        map[string]bool // FaultRecover: a request that failed with a disk error may have left a temporary file behind
+	pendingFault     map[string]bool // FaultRecover: repositories whose requests a fault hit during the current operation
 }
 
 func newWorld(x *X, k Knobs, root, name string) *World {
-	w := &World{x: x, k: k, root: root, name: name, tainted: map[string]bool{}, sessions: map[int]*MSess{}, inFlightEvict: map[string]bool{}}
+	w := &World{x: x, k: k, root: root, name: name, tainted: map[string]bool{}, sessions: map[int]*MSess{}, inFlightEvict: map[string]bool{}, pendingFault: map[string]bool{}, residueOK: map[string]bool{}}
 	w.m = newModel(k)
 	return w
 }
@@ -363,7 +365,11 @@ func (w *World) generic(rs reqSpec, r *Resp) {
 	if len(x.sim.FS.Fired) > w.faultsSeen {
 		w.faultsSeen = len(x.sim.FS.Fired)
 		for _, rp := range rs.repos {
-			w.tainted[rp] = true
+			if w.k.FaultRecover && !w.tainted[rp] {
+				w.pendingFault[rp] = true // decided when the operation is over (recoverFaults)
+			} else {
+				w.tainted[rp] = true
+			}
 		}
 		w.tainted["*"] = true
 	}
@@ -371,7 +377,7 @@ func (w *World) generic(rs reqSpec, r *Resp) {
 		// a client that went away mid-body never sees the status; what matters is the session state afterwards
 		excused := w.faultOverlapped(r) || w.closed || rs.abort
 		for _, rp := range rs.repos {
-			if w.tainted[rp] || w.inFlightEvict[rp] {
+			if w.tainted[rp] || w.inFlightEvict[rp] || w.pendingFault[rp] {
 				excused = true
 			}
 		}
